@@ -15,6 +15,7 @@
 -/
 import Aegean.Driver.Common
 import Aegean.Model.C10
+import Aegean.Model.C10Gen
 import Aegean.Spec.C10
 
 namespace Drv.C10
@@ -55,12 +56,14 @@ def handleFile (P H W : Nat) (neg pole : Bool) (grid : String) (nan : Nat) (vals
   if H = 0 ∨ W = 0 ∨ grid.length ≠ (H + 2) * (W + 2) ∨ vals.length ≠ 2 * N then "bad-op" else
   let g : Grid := { H := H, W := W, cells := grid.toList.toArray, pole := pole }
   -- every coordinate the model hands to the WCS must be one the harness evaluated
-  if ((indexes H W).map (pix2world (fun p => p) wcsOrigin)).any (fun p => g.cell p == '?') then
+  if ((indexesP genPieces H W).map (fun p => pix2world (fun q => q) genPieces.origin
+        (p.1 + genPieces.shift, p.2 + genPieces.shift))).any (fun p => g.cell p == '?') then
     "oracle-out-of-range"
   else
     let before := vals.take N
     let after := vals.drop N
-    let model := maskFile nan (fun p => p) g.inside neg P H W before
+    -- the model assembled from the pieces regenerated from the tree under test
+    let model := maskFileP genPieces (fun p => (p.2, p.1)) nan 0 (fun p => p) g.inside neg P H W before
     let verdict := match Aegean.Spec.C10.checkFile nan (fun p => p) g.inside neg P H W before after with
       | none => "ok"
       | some (p, i, j) => if p = P ∧ i = H ∧ j = W then "bad-shape" else s!"violated {p} {i} {j}"
@@ -79,7 +82,7 @@ def handleTable (neg pole : Bool) (codes : String) (fps outs : List Nat) : Strin
   let finite : Option Char → Bool := fun c => c != some 'n'
   let member : Option Char → Bool := fun c => match c with | none => pole | some ch => ch == '1'
   let inside := skyWithin finite member none
-  let model := maskTable inside coord neg fps
+  let model := maskTableP genPieces inside coord neg fps
   let verdict := if Aegean.Spec.C10.checkTable inside coord neg fps outs then "ok" else "violated"
   verdict ++ " | " ++ showHexs model
 
@@ -87,7 +90,7 @@ def handle (ws : List String) : String :=
   match ws with
   | ["index", H, W] =>
     match H.toNat?, W.toNat? with
-    | some H, some W => showInts ((indexes H W).flatMap (fun p => [p.1, p.2]))
+    | some H, some W => showInts ((indexesP genPieces H W).flatMap (fun p => [p.1 + genPieces.shift - genPieces.origin, p.2 + genPieces.shift - genPieces.origin]))
     | _, _ => "bad-op"
   | "file" :: P :: H :: W :: neg :: pole :: grid :: nan :: rest =>
     match P.toNat?, H.toNat?, W.toNat?, parseBool? neg, parseBool? pole, parseHex? nan, rest.mapM parseHex? with
